@@ -669,6 +669,6 @@ func c16WKCheck(ctx *vfCtx, c c16WKCase) {
 }
 
 func init() {
-	vfRapid("C16/resolve", c16ResolveRule, 6000, 160000, 8, c16ResolveGen, c16ResolveCheck)
-	vfRapid("C16/wellknown", c16WKRule, 6000, 160000, 8, c16WKGen, c16WKCheck)
+	vfRapid("C16/resolve", c16ResolveRule, 6000, 400000, 8, c16ResolveGen, c16ResolveCheck)
+	vfRapid("C16/wellknown", c16WKRule, 6000, 400000, 8, c16WKGen, c16WKCheck)
 }
